@@ -49,3 +49,132 @@ def doc_signature_names(doc):
     for nm in re.findall(r'(\w+)\s*=>', m.group(1)):
         out.append(nm)
     return out
+
+
+# ----------------------------------------------- lazy consumption (C08) ----
+
+import ast
+
+EAGER_CALLS = {'len', 'list', 'tuple', 'set', 'frozenset', 'sorted', 'sum',
+               'min', 'max', 'any', 'all', 'reduce', 'dict', 'reversed',
+               'enumerate_all', 'FrozenDict', 'deque'}
+EAGER_METHODS = {'extend', 'update', 'join', 'extendleft', 'union',
+                 'intersection', 'difference', 'symmetric_difference',
+                 'issubset', 'issuperset'}
+SANITIZERS = {'limit_iterable', 'limit'}
+LAZY_WRAPPERS = {'iter', 'map', 'filter', 'islice', 'chain', 'takewhile',
+                 'dropwhile', 'zip', 'zip_longest', 'enumerate', 'cycle',
+                 'memorize', 'imap', 'ifilter'}
+
+
+def admits_lazy(p):
+    a = p.get('accepts') or {}
+    return a.get('iterator') is True or a.get('generator') is True
+
+
+def is_limited_type(t):
+    """The declared smart type routes the value through Iterable.convert
+    (=> limit_iterable) whenever it is a lazy iterable."""
+    if 'Iterable' in t['mro']:
+        return True
+    if t['cls'] in ('AnyOf', 'Chain'):
+        return all(is_limited_type(x) for x in t.get('types', [])
+                   if x['cls'] != 'PythonType' or True)
+    return False
+
+
+def payload_ast(ctx, fd, cache={}):
+    path = fd['file']
+    if not path or not os.path.exists(path):
+        return None
+    if path not in cache:
+        cache[path] = ast.parse(open(path).read())
+    for n in ast.walk(cache[path]):
+        if isinstance(n, ast.FunctionDef) and n.name == fd['qualname'].split(
+                '.')[-1] and n.lineno <= fd['line'] <= (n.end_lineno or 0):
+            return n
+    for n in ast.walk(cache[path]):
+        if isinstance(n, ast.FunctionDef) and n.name == fd['qualname'].split(
+                '.')[-1]:
+            return n
+    return None
+
+
+def _name(e):
+    if isinstance(e, ast.Name):
+        return e.id
+    return None
+
+
+def _fname(call):
+    f = call.func
+    if isinstance(f, ast.Name):
+        return f.id
+    if isinstance(f, ast.Attribute):
+        return f.attr
+    return None
+
+
+def eager_consumptions(fnode, tainted, lazy_callbacks):
+    """Flow-insensitive taint analysis inside one payload. tainted: set of
+    names holding unlimited lazy values; lazy_callbacks: names of callable
+    parameters whose results are lazy-unknown. Returns [(line, what)]."""
+    tainted = set(tainted)
+    is_gen = any(isinstance(n, (ast.Yield, ast.YieldFrom))
+                 for n in ast.walk(fnode))
+
+    def expr_tainted(e):
+        if isinstance(e, ast.Name):
+            return e.id in tainted
+        if isinstance(e, ast.Call):
+            fn = _fname(e)
+            if fn in SANITIZERS:
+                return False
+            if isinstance(e.func, ast.Name) and e.func.id in lazy_callbacks:
+                return True
+            if fn in LAZY_WRAPPERS:
+                return any(expr_tainted(a) for a in e.args)
+            return False
+        if isinstance(e, ast.IfExp):
+            return expr_tainted(e.body) or expr_tainted(e.orelse)
+        if isinstance(e, ast.BoolOp):
+            return any(expr_tainted(v) for v in e.values)
+        if isinstance(e, (ast.Starred,)):
+            return expr_tainted(e.value)
+        return False
+    for _ in range(4):
+        for n in ast.walk(fnode):
+            if isinstance(n, ast.Assign) and expr_tainted(n.value):
+                for t in n.targets:
+                    if isinstance(t, ast.Name):
+                        tainted.add(t.id)
+    out = []
+    for n in ast.walk(fnode):
+        if isinstance(n, ast.Call):
+            fn = _fname(n)
+            if fn in EAGER_CALLS and isinstance(n.func, ast.Name) and any(
+                    expr_tainted(a) for a in n.args):
+                out.append((n.lineno, '%s(...) on an unlimited lazy value'
+                            % fn))
+            if fn in EAGER_METHODS and isinstance(n.func, ast.Attribute) \
+                    and any(expr_tainted(a) for a in n.args):
+                out.append((n.lineno, '.%s(...) consumes an unlimited lazy '
+                            'value' % fn))
+        elif isinstance(n, ast.For) and expr_tainted(n.iter) and not is_gen:
+            out.append((n.lineno, 'for-loop over an unlimited lazy value in '
+                        'a non-generator payload'))
+        elif isinstance(n, (ast.ListComp, ast.SetComp, ast.DictComp)):
+            for g in n.generators:
+                if expr_tainted(g.iter):
+                    out.append((n.lineno, 'comprehension consumes an '
+                                'unlimited lazy value'))
+        elif isinstance(n, ast.Compare) and any(
+                isinstance(o, (ast.In, ast.NotIn)) for o in n.ops) and any(
+                    expr_tainted(c) for c in n.comparators):
+            out.append((n.lineno, '`in` scans an unlimited lazy value'))
+        elif isinstance(n, ast.Assign) and isinstance(
+                n.targets[0], (ast.Tuple, ast.List)) and expr_tainted(
+                    n.value):
+            out.append((n.lineno, 'unpacking consumes an unlimited lazy '
+                        'value'))
+    return out
